@@ -194,10 +194,17 @@ func runBatch(c Case, tr *Tracer) {
 		old := runtime.GOMAXPROCS(caseInt(c, "procs"))
 		defer runtime.GOMAXPROCS(old)
 		b := protocol.NewBatchDataCodingEncoder().Protocol(protocol.Protocol(proto)).Content(content, ref)
-		var pdc []datacoding.ProtocolDataCoding
+		// the candidate slice is a prefix of a longer configured list (spare capacity behind it):
+		// Build must not write into the caller's array
+		backing := make([]datacoding.ProtocolDataCoding, 0, len(cands)+3)
 		for _, x := range cands {
-			pdc = append(pdc, toPDC(proto, x))
+			backing = append(backing, toPDC(proto, x))
 		}
+		spare := backing[:len(cands)+3]
+		for i := len(cands); i < len(spare); i++ {
+			spare[i] = toPDC(proto, 250+i)
+		}
+		pdc := backing[:len(cands)]
 		b.DataCodings(pdc)
 		if origin >= 0 {
 			b.OriginDataCoding(toPDC(proto, origin))
@@ -215,7 +222,17 @@ func runBatch(c Case, tr *Tracer) {
 				coding = int(a)
 			}
 		}
-		tr.emit(Ev{"ev": "Build", "proto": proto, "cands": cands, "origin": origin, "content": scalars(content), "empty": content == "",
+		mutated := false
+		for i := range spare {
+			want := toPDC(proto, 250+i)
+			if i < len(cands) {
+				want = toPDC(proto, cands[i])
+			}
+			if spare[i] != want {
+				mutated = true
+			}
+		}
+		tr.emit(Ev{"ev": "Build", "mutated": mutated, "proto": proto, "cands": cands, "origin": origin, "content": scalars(content), "empty": content == "",
 			"env": env, "ucs2can": ucs2can, "err": err != nil, "coding": coding, "nparts": len(parts), "panic": pan, "site": proto + ".Build"})
 	}
 }
